@@ -468,7 +468,15 @@ func c07(c *Ctx) {
 		"prefix comparison. Decided by cutting the agree edge, folding boolean phis (the fingerprint `found` loop) and requiring every effect to be " +
 		"unreachable. Also: reply-kind assertions in the request helpers, who may write `encrypted` / call SaveSession, and a panic census of the abort paths."
 	r.NotDecided = []string{"the trusted base: big.Int.Cmp, bytes.Equal and the TL decoder deliver the reply's fields faithfully (C01/C15)"}
+	c.errorsKept("R07.X", "the key exchange (makeAuthKey, its three requests, CreateConnection): an abort stays an abort", 6, rootMethods("makeAuthKey", "reqPQ", "reqDHParams", "setClientDHParams", "CreateConnection", "connect"))
 	r.Rule("R07.G", "each row of the handshake table has a guard whose operands have the row's origins, whose differ-edge reaches no effect and whose agree-edge is on every entry→effect path", 13)
+	// the verdict on one reply depends on that reply and on this client's own values only: a fingerprint, nonce or
+	// key remembered in a package variable (cache, sync.Once, pool) from an earlier exchange makes the second client
+	// of the process accept what the first one's server offered
+	r.Rule("R07.S", "nothing reachable from makeAuthKey writes a package-level variable, locked or not: the exchange keeps no state that outlives it or is shared between clients", 1)
+	if f := c.fn("R07.S", load.RootMod, "*MTProto", "makeAuthKey"); f != nil {
+		c.noGlobalWrites("R07.S", []*ssa.Function{f}, "the key exchange: two clients of one process (different keys, different servers) would share it")
+	}
 	r.Rule("R07.T", "ReqPQ / ReqDHParams / SetClientDHParams assert the reply kind with comma-ok and return a non-nil value only on the ok edge", 3)
 	r.Rule("R07.W", "MTProto.encrypted is written only in NewMTProto and at the guarded point; SaveSession is called only from makeAuthKey and processResponse; Store only from SaveSession", 3)
 	r.Rule("R07.P", "a mismatch is reported as an error: no panic site on the abort paths of the server-reply checks", 1)
